@@ -171,7 +171,7 @@ func atLimit(n int) []env.Op {
 
 var scenarios2 = []scenario{
 	{Name: "empty: install‖install", Ops: []env.Op{inst(false), inst(false)}},
-	{Name: "empty: install‖install --replace", Ops: []env.Op{inst(false), inst(true)}},
+	{Big: true, Name: "empty: install‖install --replace", Ops: []env.Op{inst(false), inst(true)}},
 	{Name: "deployed: upgrade‖upgrade", Setup: atLimit(1), Ops: []env.Op{up(0), up(0)}},
 	{Name: "deployed: upgrade‖install", Setup: atLimit(1), Ops: []env.Op{up(0), inst(false)}},
 	{Name: "deployed: upgrade‖install --replace", Setup: atLimit(1), Ops: []env.Op{up(0), inst(true)}},
